@@ -10,7 +10,7 @@ pending = json.load(open(os.path.join(ROOT, "props", "pending.json"))) if os.pat
 hooks = json.load(open(os.path.join(ROOT, "props", "hooks.json")))
 checks, na = [], []
 for pid in all_ids:
-    if pid in props and props[pid].get("claimed", True):
+    if pid in props and props[pid].get("claimed", False):
         m = props[pid]["manifest"]
         checks.append({
             "property_id": pid,
